@@ -238,7 +238,32 @@ def t_rate(name, order, T):
     return ok, f"{name} order {order}: errors {errs}, observed rates {[round(float(x), 2) for x in rates]}"
 
 
-TESTS = dict(phi_step=t_phi_step, rate=t_rate)
+def t_stepper_order(name, D, N, order, seed):
+    """every exported stepper class that takes `order`: one call equals the order-p phi-tableau applied to the class's OWN linear operator
+    and nonlinear function (rebuilt through its _build_* methods) - i.e. the requested order reaches the integrator, order 0 is the pure
+    linear propagation"""
+    ex, jnp = _ex()
+    from .. import registry
+    s = registry.make(name, D, N, order=order)
+    dop = ex.spectral.build_derivative_operator(D, s.domain_extent, s.num_points)
+    lam = np.asarray(s._build_linear_operator(dop))
+    nf = s._build_nonlinear_fun(dop)
+    rng = np.random.default_rng(seed)
+    C = s.num_channels
+    import jax
+    u = jnp.stack([ex.ic.RandomTruncatedFourierSeries(D, cutoff=2, max_one=True)(N, key=jax.random.PRNGKey(seed + 7 * c)) [0] * (0.4 + 0.2 * c) for c in range(C)])
+    uh = np.asarray(ex.spectral.fft(u, num_spatial_dims=D))
+    nl = lambda v: np.asarray(nf(jnp.asarray(v)))
+    exp_hat = ref_step(order, s.dt, lam, nl, uh)
+    exp = np.asarray(ex.spectral.ifft(jnp.asarray(exp_hat), num_spatial_dims=D, num_points=N))
+    got = np.asarray(s(u))
+    if not np.all(np.isfinite(got)):
+        return False, f"{name} D={D} order={order}: non-finite step"
+    err = float(np.max(np.abs(got - exp)) / (1e-300 + np.max(np.abs(exp))))
+    return err < 1e-8, f"{name} D={D} N={N} order={order}: one call deviates from the order-{order} phi-tableau of its own operators by {err:.3e}"
+
+
+TESTS = dict(phi_step=t_phi_step, rate=t_rate, stepper_order=t_stepper_order)
 
 
 def witness(ctx):
@@ -246,6 +271,16 @@ def witness(ctx):
     for p in (0, 1, 2, 3, 4):
         for z in zs:
             ctx.check("phi_step", dict(p=p, z=[z.real, z.imag], dt=0.25, seed=ctx.seed), nontrivial=(z != 0 or p > 0))
+    from .. import registry
+    NS = {1: 16, 2: 8, 3: 6}
+    for j, name in enumerate(sorted(registry.classes())):
+        if not registry.has_order(name):
+            continue
+        ds = registry.dims(name)
+        for D in (ds if ctx.deep else (ds[(j + ctx.seed) % len(ds)],)):
+            orders = (0, 1, 2, 3, 4) if ctx.deep else ((0, 1, 3, 4)[(j + ctx.seed) % 4], (0, 1, 3, 4)[(j + ctx.seed + 2) % 4])
+            for o in orders:
+                ctx.check("stepper_order", dict(name=name, D=D, N=NS[D], order=o, seed=ctx.seed))
     probs = [("kdv", 0.1), ("burgers", 0.2)] if not ctx.deep else \
         [("kdv", 0.1), ("burgers", 0.2), ("gen_conv_odd", 0.1), ("ks", 0.5), ("burgers2d", 0.1), ("fisher", 0.5)]
     for name, T in probs:
